@@ -22,6 +22,7 @@ import (
 	"google.golang.org/grpc"
 	"google.golang.org/grpc/credentials/insecure"
 	"google.golang.org/grpc/test/bufconn"
+	"google.golang.org/protobuf/proto"
 )
 
 // switchBackend lets one long-lived gRPC server front the backend of the case that is running.
@@ -74,6 +75,8 @@ func (capsServer) GetCapabilities(ctx context.Context, in *remoteexecution.GetCa
 // netEnv is the real client connected to the real servers through an in-memory gRPC connection.
 type netEnv struct {
 	backend *switchBackend
+	acBack  *switchBackend
+	ac      blobstore.BlobAccess // Action Cache client
 	plain   blobstore.BlobAccess // client without compression
 	zstd    blobstore.BlobAccess // client that negotiates zstd
 }
@@ -91,9 +94,11 @@ func getNet(cs int) *netEnv {
 		return e
 	}
 	sb := &switchBackend{}
+	sbAC := &switchBackend{}
 	lis := bufconn.Listen(1 << 20)
 	srv := grpc.NewServer()
-	bytestream.RegisterByteStreamServer(srv, grpcservers.NewByteStreamServer(sb, cs, zstdPool))
+	bytestream.RegisterByteStreamServer(srv, grpcservers.NewByteStreamServer(sb, cs, newPool()))
+	remoteexecution.RegisterActionCacheServer(srv, grpcservers.NewActionCacheServer(sbAC, 1<<20))
 	remoteexecution.RegisterContentAddressableStorageServer(srv, grpcservers.NewContentAddressableStorageServer(sb, 1<<20))
 	remoteexecution.RegisterCapabilitiesServer(srv, capsServer{})
 	go srv.Serve(lis)
@@ -106,7 +111,9 @@ func getNet(cs int) *netEnv {
 	e := &netEnv{
 		backend: sb,
 		plain:   grpcclients.NewCASBlobAccess(conn, uuid.NewRandom, cs, nil),
-		zstd:    grpcclients.NewCASBlobAccess(conn, uuid.NewRandom, cs, zstdPool),
+		zstd:    grpcclients.NewCASBlobAccess(conn, uuid.NewRandom, cs, newPool()),
+		acBack:  sbAC,
+		ac:      grpcclients.NewACBlobAccess(conn, 1<<20),
 	}
 	netEnvs[cs] = e
 	return e
@@ -124,7 +131,11 @@ func (w *world) execClient(line string) string {
 	env.backend.mu.Lock()
 	env.backend.cur = w.cas
 	env.backend.mu.Unlock()
-	ctx := context.Background()
+	env.acBack.mu.Lock()
+	env.acBack.cur = w.ac
+	env.acBack.mu.Unlock()
+	ctx, cancel := context.WithTimeout(context.Background(), 4*opTimeout)
+	defer cancel()
 	client := func(z string) blobstore.BlobAccess {
 		if z == "1" {
 			return env.zstd
@@ -178,6 +189,36 @@ func (w *world) execClient(line string) string {
 				return "err " + errTag(err)
 			}
 			return "ok " + hexs(data)
+		case "cacput", "cacget":
+			fn, err := tagFunction(h[1])
+			if err != nil {
+				return "harness-error " + err.Error()
+			}
+			n, _ := strconv.ParseInt(h[3], 10, 64)
+			d, err := fn.NewDigest(h[2], n)
+			if err != nil {
+				return "harness-error " + err.Error()
+			}
+			if h[0] == "cacput" {
+				raw, _ := unhex(h[4])
+				var ar remoteexecution.ActionResult
+				if err := proto.Unmarshal(raw, &ar); err != nil {
+					return "harness-error cacput message does not parse"
+				}
+				if err := env.ac.Put(ctx, d, buffer.NewProtoBufferFromProto(&ar, buffer.UserProvided)); err != nil {
+					return "err " + errTag(err)
+				}
+				return "ok"
+			}
+			m, err := env.ac.Get(ctx, d).ToProto(&remoteexecution.ActionResult{}, 1<<20)
+			if err != nil {
+				return "err " + errTag(err)
+			}
+			b, err := proto.MarshalOptions{Deterministic: true}.Marshal(m)
+			if err != nil {
+				return "harness-error " + err.Error()
+			}
+			return "ok " + hexs(b)
 		case "cfm":
 			sb := digest.NewSetBuilder(0)
 			for _, sec := range secs[1:] {
@@ -223,8 +264,23 @@ func cfmEntry(sec []string) (tag, hash, size string, err error) {
 
 var functionEnums = map[string]remoteexecution.DigestFunction_Value{
 	"sha256": remoteexecution.DigestFunction_SHA256,
-	"md5":    remoteexecution.DigestFunction_MD5,
-	"sha1":   remoteexecution.DigestFunction_SHA1,
+	"md5":        remoteexecution.DigestFunction_MD5,
+	"sha1":       remoteexecution.DigestFunction_SHA1,
+	"sha384":     remoteexecution.DigestFunction_SHA384,
+	"sha512":     remoteexecution.DigestFunction_SHA512,
+	"sha256tree": remoteexecution.DigestFunction_SHA256TREE,
+	"blake3":     remoteexecution.DigestFunction_BLAKE3,
+	"gitsha1":    remoteexecution.DigestFunction_GITSHA1,
+}
+
+// functionHashLen is the number of hex characters of a hash of each digest function.
+var functionHashLen = map[string]int{"sha256": 64, "md5": 32, "sha1": 40, "sha384": 96, "sha512": 128,
+	"sha256tree": 64, "blake3": 64, "gitsha1": 40}
+
+// refKey is the oracle's own notion of the backend key of <function>.<instance> hash size.
+func refKey(tag, hash string, size int64) string {
+	name, _, _ := strings.Cut(tag, ".")
+	return key(qualHash(int(functionEnums[name]), hash), size)
 }
 
 func tagFunction(tag string) (digest.Function, error) {
